@@ -60,11 +60,23 @@ void write_single_element(
 // ==========================================================================
 // ADVANCE_CURSOR_POSITION
 // ==========================================================================
-void advance_cursor_position(terminal_state &state)
+void advance_cursor_position(terminal_state &state, element const &elem)
 {
     if (state.cursor_position_)
     {
-        if (++state.cursor_position_->x_ == state.terminal_size_.width_)
+        // Control characters (line feed, carriage return, tab, backspace,
+        // ...) move the cursor in their own ways instead of occupying a
+        // cell.  Rather than model each of them, forget the position.
+        auto const first_byte = elem.glyph_.charset_ == charset::utf8
+                                  ? elem.glyph_.ucharacter_[0]
+                                  : elem.glyph_.character_;
+
+        if (first_byte < detail::ascii::space
+            || first_byte == detail::ascii::del)
+        {
+            state.cursor_position_ = {};
+        }
+        else if (++state.cursor_position_->x_ == state.terminal_size_.width_)
         {
             // Terminals differ in their behaviour when reaching the
             // end of the line.  Some wrap to the next line, some bounce
@@ -100,7 +112,7 @@ void write_element::operator()(
 
     state.last_element_ = element_;
 
-    advance_cursor_position(state);
+    advance_cursor_position(state, element_);
 }
 
 }  // namespace terminalpp
